@@ -13,7 +13,7 @@ import numpy as np
 
 from common import (run_tlc, tlc_must_pass, printed_json, validate_events, to_words, Infra, isolated,
                     isolated_many)
-from lib import Lib, Buf, FFT64, NTT120, MASK_NONE, MASK_GENERIC
+from lib import Lib, Buf, FFT64, NTT120, MASK_NONE, MASK_GENERIC, ro
 
 LEVEL = "model_checking"
 
@@ -42,7 +42,8 @@ def run_kernel(L, name, inplace, dt, n, p, x):
     else:
         dst = Buf(8 * n, fill=0xEE)
         before = src.snapshot()
-        L.call(name, n, p, dst, src)
+        with ro(src):
+            L.call(name, n, p, dst, src)
         ok = src.canaries_ok() and dst.canaries_ok() and bool((before == src.u8).all())
         out = dst
     if not ok:
